@@ -732,6 +732,23 @@ def value_plumbing(fns):
     return outs, structs, loops, meta, setters, helpers, cstrs
 
 
+def pending_inputs(fns):
+    """How every exported function treats the scanner's pending module data
+    (`YRX_SCANNER.module_data`, filled by yrx_scanner_set_module_data): the methods it calls on it, in order
+    (insert / drain / iter / clear / ...), and whether the call happens before the block-mode check."""
+    rows = []
+    for fn in sorted((f for f in fns.values() if f.exported), key=lambda f: (FILES.index(f.file), f.line)):
+        ops = re.findall(r"\.\s*module_data\s*\.\s*([a-z_]+)\s*\(", fn.body)
+        for o in ops:
+            if o not in ("insert", "drain", "iter", "clear", "is_empty", "len", "remove", "get", "contains_key"):
+                raise TranslateError(f"{fn.name}: unknown operation `{o}` on module_data")
+        if ops: rows.append((fn.name, ops))
+    if not any(n == "yrx_scanner_set_module_data" and "insert" in o for n, o in rows):
+        raise TranslateError("yrx_scanner_set_module_data does not insert into module_data")
+    # the struct field itself
+    return rows
+
+
 def enum_variants(text, name, what):
     body, _, _ = block_after(strip_comments(text), r"pub\s+enum\s+" + name + r"\b[^{]*\{", what)
     vs = re.findall(r"^\s*([A-Za-z_][A-Za-z0-9_]*)\s*(?:\([^)]*\))?\s*,", body, re.M)
@@ -874,6 +891,10 @@ def main():
     L.append("Definition global_setters : list (string * string * string * string * string) :=\n  [" + ";\n   ".join(f"({q(a)}, {q(b)}, {q(c)}, {q(d)}, {q(e)})" for a, b, c, d, e in setters) + "].")
     L.append("(* the helpers pass (ident, value) on: (helper, Rust method, first argument, second argument) *)")
     L.append("Definition global_helpers : list (string * string * string * string) :=\n  [" + "; ".join(f"({q(a)}, {q(b)}, {q(c)}, {q(d)})" for a, b, c, d in helpers) + "].")
+    L.append("")
+    L.append("(* pending per-scan module data (YRX_SCANNER.module_data): operations each exported function performs on it *)")
+    L.append("Definition module_data_ops : list (string * list string) :=\n  [" + ";\n   ".join(
+        f"({q(n)}, [" + "; ".join(q(o) for o in ops) + "])" for n, ops in pending_inputs(fns0)) + "].")
     L.append("")
     L.append("(* yrx_compiler_create flags: constant, value, yara_x::Compiler method called when the bit is set, its argument")
     L.append("   (from the `if flags & YRX_X != 0 { compiler.m(b); }` statements of _yrx_compiler_create) *)")
